@@ -147,6 +147,27 @@ def close_scenarios(logs, rnd, nlogs):
     return out
 
 
+def leaderless_scenarios(logs, rnd, nlogs):
+    """two partition consumers on one broker; one partition loses its leader and stays leaderless for several
+    redispatch attempts; meanwhile the healthy sibling is closed (or keeps consuming); then the leader returns"""
+    out = []
+    for i, log in enumerate(logs[:nlogs]):
+        for close_sibling in (True, False):
+            for ms in (20, 60):
+                lg0, lg1 = add_codec(log, rnd), add_codec(log, rnd)
+                cfg = dict(version=pick_version(log, rnd), iso="ru", fetchDefault=1 << 20, chanBuf=1, leaders=[1, 1], nbrokers=1, readTimeoutMs=120)
+                steps = [{"op": "sleep", "ms": 10}, {"op": "move", "part": 0, "to": 0}, {"op": "sleep", "ms": ms}]
+                if close_sibling:
+                    steps += [{"op": "close_pc", "part": 1}, {"op": "close_pc_again", "part": 1}]
+                steps += [{"op": "move", "part": 0, "to": 1}]
+                out.append({"name": "leaderless-%d-%s-%dms" % (i, "closesib" if close_sibling else "keep", ms), "family": "leaderless",
+                            "cfg": cfg, "logs": {"0": lg0, "1": lg1},
+                            "fetchPlans": {"0:2": {"kind": "err", "code": 6}, "0:3": {"kind": "err", "code": 6}},
+                            "consume": [{"part": 0, "start": 0}, {"part": 1, "start": 0}],
+                            "expectAll": {"0": True, "1": not close_sibling}, "steps": steps})
+    return out
+
+
 def run_scenarios(ctx, scenarios, name="cons", shards=8, timeout=1500):
     cases = os.path.join(ctx.scratch, name + ".cases.ndjson")
     with open(cases, "w") as f:
